@@ -20,7 +20,9 @@ PROP_MODULE = "DoraModel.Props.C13"
 PROP_FILE = "DoraModel/Props/C13.lean"
 HEAP_MB = 64
 
-ELEMS = [("UInt8", 1), ("Int32", 4), ("Int64", 8), ("String", 8), ("(Int64, Int64)", 16), ("(Int64, Int64, Int64)", 24)]
+# (element type, element size, how to make one: `zero(n)` needs a zero value, other types use fill(n, v))
+ELEMS = [("UInt8", 1, None), ("Int32", 4, None), ("Int64", 8, None), ("String", 8, '"x"'),
+         ("(Int64, Int64)", 16, "(1, 2)"), ("(Int64, Int64, Int64)", 24, "(1, 2, 3)")]
 LENGTHS = ["-1", "-2", "-9223372036854775807 - 1", "-2305843009213693952", "2147483648", "1152921504606846976",
            "2305843009213693951", "2305843009213693952", "2305843009213693953", "4611686018427387904",
            "4611686018427387905", "9223372036854775800", "9223372036854775807", "1000", "0"]
@@ -88,12 +90,13 @@ def heap_programs(quick):
 
 def array_programs(quick):
     progs = []
-    for (ty, es) in ELEMS:
+    for (ty, es, fillv) in ELEMS:
         for n in LENGTHS:
             if quick and ty in ("String", "(Int64, Int64, Int64)") and n not in ("-1", "2305843009213693953", "9223372036854775807", "1000"):
                 continue
             name = "array-%s-%s" % (re.sub(r"\W+", "", ty), re.sub(r"[^0-9-]", "", n.replace(" - 1", "m1")))
-            src = ('fn main() { println("start"); let n: Int64 = %s; let a = Array[%s]::zero(n); println("size ${a.size()}"); }\n' % (n, ty))
+            make = "Array[%s]::zero(n)" % ty if fillv is None else "Array[%s]::fill(n, %s)" % (ty, fillv)
+            src = ('fn main() { println("start"); let n: Int64 = %s; let a = %s; println("size ${a.size()}"); }\n' % (n, make))
             progs.append((name, src, "array", (es, ival(n))))
     for (ctor, arg) in (("Vec[Int64]::new_with_capacity(n)", "-1"), ("Array[Int64]::fill(n, 7)", "-5"),
                         ("Array[Int64]::fill(n, 7)", "2305843009213693953"), ("Vec[UInt8]::new_with_capacity(n)", "9223372036854775807")):
@@ -145,10 +148,16 @@ def run(ctx):
     rc, pred_out, _ = C.sh2([drv], stdin="\n".join(reqs) + "\n", timeout=120)
     pred = dict(zip(reqs, pred_out.splitlines()))
     jobs = []
+    skipped_boots = []
     for (name, src, kind, info) in progs:
         for (be, bfl) in backends:
             for (gc, gfl) in gcs:
                 if kind == "array" and gc != "swiper":
+                    continue
+                if be == "boots" and re.search(r"struct(32K|256K|2M)|frame2M", name):
+                    # the optimizing compiler needs > 15 min (or runs out of memory) for structs of 32 KB and more:
+                    # a compile-time matter, not C13's; those frame sizes are exercised with the baseline generator
+                    skipped_boots.append(name)
                     continue
                 jobs.append((name, src, kind, info, be, bfl, gc, gfl))
 
@@ -184,7 +193,8 @@ def run(ctx):
                       how_to_replay="dora compile %s p.dora -o p && DORA_FLAGS=--max-heap-size=%dM ./p" % (" ".join(bfl + gfl), HEAP_MB))
         if cls == "compile-failed":
             stats["compile_failed"] += 1
-            ctx.notes.append("compile failed: %s %s: %s" % (name, be, o[:200]))
+            if len(ctx.notes) < 8:
+                ctx.notes.append("compile failed: %s %s: %s" % (name, be, o[-160:]))
             continue
         if kind in ("stack", "bigframe"):
             okset = ("trap:stack",) if kind == "stack" else ("trap:stack", "exit0")
@@ -239,7 +249,8 @@ def run(ctx):
                     "(negative, 2^31, 2^60..2^63-1, small); all cases are non-trivial (each must end in a specific trap or succeed)",
                histogram=stats["hist"], samples=stats["samples"] or [dict(note="none")],
                array_cases=stats["array_cases"], array_outcomes_as_model_predicts=stats["array_agree"],
-               compile_failed=stats["compile_failed"], heap_limit_mb=HEAP_MB)
+               compile_failed=stats["compile_failed"], heap_limit_mb=HEAP_MB,
+               not_run_with_optimizing_compiler=sorted(set(skipped_boots)))
     ctx.write_evidence("proof", cov, assumptions=[
         "only the size arithmetic is proved; real stack depth, OS guard pages and the allocation retry ladder are explored by programs",
         "model prediction for success needs size <= heap limit; lengths between 2^20 and 2^40 are expected to end in the OOM trap"])
